@@ -7,6 +7,9 @@ CONSTANTS
   DropChoices <- DropsFull
   H = 1
   PStalls = {0, 3}
+  ConsumerStyles = {"block", "poll"}
+  StylesEverywhere = FALSE
+  PollingHelper = FALSE
   Observe = FALSE
   SkipIdxStep = FALSE
   CStalls = {0, 3}
